@@ -605,6 +605,9 @@ def mon_c04(im, p):
                 fails.append({'signature': 'mul-pow-not-decimal', 'what': f'{self.op} returned {type(r).__name__}', 'input': p})
             elif digits_of(r) > 28:
                 fails.append({'signature': 'mul-pow-over-28', 'what': f'{self.op} returned {digits_of(r)} digits', 'input': p})
+        elif self.op in ('+', '-', '/') and isinstance(r, decimal.Decimal) and r.is_finite() and digits_of(r) > 28:
+            # a DECIMAL result of + - / is rounded by the context whatever the operands were (ints stay ints, floats stay floats)
+            fails.append({'signature': 'arith-over-28', 'what': f'{self.op} returned a Decimal of {digits_of(r)} digits', 'input': p})
         return r
     orig_call = A.CallOp.eval
 
@@ -2029,9 +2032,9 @@ def mon_c19(im, p):
                 break
     finally:
         evalimpl.set_random(ns, real)
-    for L in p['lists']:
+    for L in list(p['lists']) + [[], [5]]:        # the empty and the one-element list too: still a NEW list
         arg = list(L)
-        for _ in range(p['draws'] // 4 + 1):
+        for _ in range(p['draws'] // 4 + 1 if L else 0):
             x = im.p.eval('rand(l)', {'l': arg})
             if x not in L or arg != L:
                 fails.append({'signature': 'rand-list-not-member', 'what': f'rand({L!r}) = {x!r}; argument afterwards {arg!r}', 'input': p})
